@@ -10,6 +10,7 @@ import (
 
 	"github.com/deepteams/webp/verifharness/gen"
 	"github.com/deepteams/webp/verifharness/ref/vp8lstrict"
+	"github.com/deepteams/webp/verifharness/ref/xref"
 )
 
 func TestDbgCorpus(t *testing.T) {
@@ -41,6 +42,8 @@ func TestDbgCorpus(t *testing.T) {
 				truth++
 			} else {
 				reasons["valid but: "+d.WitnessNote]++
+				_, rerr := decodeBytes(xref.Simple("VP8L", data))
+				fmt.Printf("VALID-BUT %s len=%d %dx%d note=%s repoErr=%v hex=%x\n", filepath.Base(f), len(data), w, h, d.WitnessNote, rerr, data)
 			}
 		}
 	}
